@@ -269,6 +269,9 @@ def finish(report: Report, mod) -> int:
     known_sigs = [s for s in by_sig if s in open_findings]
 
     rdir = ROOT / "replays" / pid
+    if rdir.exists():  # replays always describe the latest run only
+        for old in rdir.glob("*.json"):
+            old.unlink()
     replay_paths = {}
     for sig in new_sigs:
         msg, case = by_sig[sig][0]
